@@ -132,7 +132,9 @@ CLAIMS = {
  'C08': dict(
    text="Lean theorems about the tracks the model of `crd write` produces, for any document, 1..65535 tracks, any instrument/program: track_count, "
         "one_eot_and_last, timing_meta_only_in_first_track (every meta event is routed to track 0), notes_paired_per_track (per track and instance, the "
-        "note-offs are for exactly the keys and routing indices of the note-ons, in order), header_bytes (MThd, 6, format 0 iff one track, count, division). "
+        "note-offs are for exactly the keys and routing indices of the note-ons, in order), header_bytes (MThd, 6, format 0 iff one track, count, division), "
+        "delta_times_fit (every delta time of every track is at most the piece length <= 0x0FFFFFFF, and gomidi's variable-length encoding of it is read back "
+        "exactly by the strict reader: encoder against the specification's decoder for EVERY value that can occur), too_long_refused (D22 fix). "
         "The strict SMF reader (Crd.Spec.parseSMF, written from the specification, shares no code with the encoder or gomidi) is executed on the REAL bytes of "
         "every generated file on every run, together with the note-balance and first-track checks (oracle smf-strict). Tie: byte equality of real output and "
         "model encoder over 2,000 (30,000) documents x 1..32 tracks x instrument/program flags.",
